@@ -23,12 +23,14 @@ type raceResult struct {
 	Scenario string `json:"scenario"`
 	Iters    int    `json:"iters"`
 	Lost     int    `json:"lost"`
+	Hung     bool   `json:"hung"`
 	Infra    string `json:"infra"`
 }
 
 type raceOutcome struct {
 	Summary map[string]any
 	Reports []string
+	Hung    []string // jobs whose free-running goroutines never finished
 }
 
 // runRace builds the untouched generated code with -race and lets real
@@ -79,6 +81,10 @@ func runRace(mod *Module, tier string) (*raceOutcome, error) {
 	for _, r := range res {
 		if r.Infra != "" {
 			return nil, core.Infra("race job: %s", r.Infra)
+		}
+		if r.Hung {
+			o.Hung = append(o.Hung, fmt.Sprintf("%s %s", r.Mock, r.Scenario))
+			continue
 		}
 		if r.Lost > 0 {
 			lost += r.Lost
